@@ -320,7 +320,9 @@ class Ctx:
             self.traces += len(lines)
             self.counters["%s_trace_events" % recorder] = self.counters.get("%s_trace_events" % recorder, 0) + len(lines)
             start = 0
-            while start < len(lines) and len(found) < max_findings:
+            rejections = 0
+            while start < len(lines) and len(found) < max_findings and rejections < 2 * max_findings:
+                rejections += 1
                 cur = path
                 if start:
                     cur = path + ".rest"
